@@ -141,6 +141,9 @@ class _SocksMachine(object):
             (version, method) = struct.unpack('BB', reply)
             if version == 5 and method in [0x00, 0x02]:
                 self.version_reply(method)
+                if self._data:
+                    # the rest of this segment belongs to the next state
+                    self.got_data()
             else:
                 if version != 5:
                     self.version_error(SocksError(
@@ -228,6 +231,11 @@ class _SocksMachine(object):
         # "the I/O-doing" stuff
         self._sender = sender
         self._when_done.fire(sender)
+        if self._data:
+            # bytes that arrived in the same segment as the reply
+            data = self._data
+            self._data = b''
+            sender.dataReceived(data)
 
     @_machine.output()
     def _domain_name_resolved(self, domain):
